@@ -1,1 +1,460 @@
+/-
+  Pfb.C06.Props — C06 "Auto-import adds only needed names and never clobbers".
+
+  All theorems are about the model `Pfb.AutoImp.Model` (tied to `_autoimp.py` by the
+  correspondence check of harness/c06.py) and hold for EVERY import universe `U`, every
+  database table, every namespace stack, every list of missing names and every sequence of
+  calls (`auto_import`, `auto_import_symbol`, `_try_import`, new cell) sharing one attempt
+  map and one failed-import set — there is no bound on any size.
+-/
+import Pfb.AutoImp.Flow
 import Pfb.AutoImp.PyWorld
+namespace Pfb.C06
+open Pfb.AutoImp
+
+variable {W : Type}
+
+/-- the records a history appends to the log -/
+def newLog (U : Univ W) (db : DB) (cs : List Call) (st : State W) : List Rec :=
+  (run U db cs st).2.log.drop st.log.length
+
+theorem newLog_spec (U : Univ W) (db : DB) (cs : List Call) (st : State W) :
+    ∃ new, newLog U db cs st = new ∧
+      Reach.LogExt U (fun s i t l => ∃ c ∈ cs, CallAllows U db (st.nss.length - 1) c s i t l) st (run U db cs st).2 new := by
+  obtain ⟨new, h⟩ := (reach_run U db cs st).logExt
+  refine ⟨new, ?_, h⟩
+  simp [newLog, h.log_eq]
+
+/-! ### C06_frame — nothing is rebound, shadowed-by-replacement or deleted, in any namespace of the stack -/
+
+/-- For every history: every namespace keeps every key it had, bound to the same object, and the
+    stack keeps its length.  (All histories ⇒ in particular every prefix of a history: the
+    statement holds at every call boundary.) -/
+theorem C06_frame (U : Univ W) (db : DB) (cs : List Call) (st : State W) :
+    (run U db cs st).2.nss.length = st.nss.length ∧
+    ∀ i k v, (getNs st.nss i).lookup k = some v → (getNs (run U db cs st).2.nss i).lookup k = some v := by
+  have h := (reach_run U db cs st).frame
+  exact ⟨h.1.symm, fun i k v => h.2 i k v⟩
+
+/-- … and at every single import attempt inside the history: the namespaces the attempt found
+    extend the initial ones, and the namespaces it left extend those it found. -/
+theorem C06_frame_every_attempt (U : Univ W) (db : DB) (cs : List Call) (st : State W) :
+    ∀ r ∈ newLog U db cs st, Frame st.nss r.before ∧ Frame r.before r.after := by
+  obtain ⟨new, hn, h⟩ := newLog_spec U db cs st
+  rw [hn]
+  intro r hr
+  obtain ⟨s, _, hs, _, hf⟩ := h.allowed r hr
+  exact ⟨hs ▸ hf, h.frame r hr⟩
+
+example : ∃ (U : Univ Unit) (db : DB) (cs : List Call) (st : State Unit),
+    (run U db cs st).2.nss ≠ st.nss :=
+  ⟨⟨fun _ _ => (some 7, ()), fun _ _ => (true, ()), fun _ _ => none, fun _ _ _ => none⟩, [],
+   [.code (some [[['a']]])], ⟨[[]], [], [], (), []⟩, by decide⟩
+
+/-! ### C06_only_needed -/
+
+theorem chosen_head {U : Univ W} {db : DB} (hdb : DbKeyed db) {d : Dotted} {n : Nat} {s : State W} {imp : Import}
+    {tgt : Nat} {loop : Bool} (h : Chosen U db d n s imp tgt loop) :
+    imp.importAs ≠ [] ∧ d.head? = some (name0 imp) := by
+  obtain ⟨_, _, h⟩ := h
+  rcases h with ⟨_, hk⟩ | ⟨_, p, hp, rfl, _⟩
+  · obtain ⟨k, hkp, hl⟩ := getKnownImport_some hk
+    have := hdb k [imp] hl imp (by simp)
+    have hne := prefixes_ne_nil hkp
+    refine ⟨this ▸ hne, ?_⟩
+    rw [← prefixes_head hkp, name0, this]
+    exact head?_headD hne
+  · have hne := prefixes_ne_nil hp
+    refine ⟨hne, ?_⟩
+    rw [← prefixes_head hp]
+    exact head?_headD hne
+
+/-- which names a call may add, and where -/
+def CallNeeds (n : Nat) (c : Call) (i : Nat) (k : Name) : Prop :=
+  match c with
+  | .code (some ds) => i = n ∧ ∃ d ∈ ds, d.head? = some k
+  | .code none => False
+  | .symbol d => i = n ∧ d.head? = some k
+  | .tryImp imp ns => i = ns ∧ name0 imp = k
+  | .newCell => False
+
+/-- **C06_only_needed.**  A binding that a history adds (key `k` absent before, bound to `v` after,
+    in namespace `i`) is in the target namespace of some call of the history, `k` is the head of a
+    missing dotted name of that call (for a direct `_try_import`: the name the statement binds), and
+    `v` is exactly the object that an executed import statement binding `k` yielded
+    (`r.res = (U.exec s.w r.imp).1` for the state `s` it was executed in); that attempt found `k`
+    unbound in the target. -/
+theorem C06_only_needed (U : Univ W) (db : DB) (hdb : DbKeyed db) (cs : List Call) (st : State W)
+    (i : Nat) (k : Name) (v : Obj)
+    (hafter : (getNs (run U db cs st).2.nss i).lookup k = some v)
+    (hbefore : (getNs st.nss i).lookup k = none) :
+    (∃ c ∈ cs, CallNeeds (st.nss.length - 1) c i k) ∧
+    ∃ r ∈ newLog U db cs st, r.tgt = i ∧ name0 r.imp = k ∧ r.res = some v ∧
+      (getNs r.before i).lookup k = none ∧
+      ∃ s : State W, s.nss = r.before ∧ (U.exec s.w r.imp).1 = some v := by
+  obtain ⟨new, hn, h⟩ := newLog_spec U db cs st
+  rw [hn]
+  obtain ⟨r, hr, htgt, hname, hres, _, hnone⟩ := h.origin i k v hafter hbefore
+  obtain ⟨s, ⟨c, hc, hca⟩, hs, hyield, _⟩ := h.allowed r hr
+  refine ⟨⟨c, hc, ?_⟩, r, hr, htgt, hname, hres, hnone, s, hs, by rw [← hyield, hres]⟩
+  cases c with
+  | code m =>
+    cases m with
+    | none => exact hca.elim
+    | some ds =>
+      obtain ⟨d, hd, hch⟩ := hca
+      exact ⟨htgt ▸ hch.1, d, hd, hname ▸ (chosen_head hdb hch).2⟩
+  | symbol d => exact ⟨htgt ▸ hca.1, hname ▸ (chosen_head hdb hca).2⟩
+  | tryImp imp ns => exact ⟨htgt ▸ hca.2.1, hname ▸ hca.1 ▸ rfl⟩
+  | newCell => exact hca.elim
+
+def _root_.Pfb.AutoImp.Call.isAuto : Call → Bool
+  | .tryImp _ _ => false
+  | _ => true
+
+/-
+  Target (full strength, FALSE on the unchanged code — D14):
+    a name added by auto-import was unbound in EVERY namespace of the stack.
+  What the code guarantees instead:
+-/
+
+/-- **C06_shadow_only_registry** (the exact extent of D14).  If auto-import adds `k` to the target
+    although another namespace of the stack already binds `k` (to `v0`), then that binding is the
+    module registered under the name `k` (`sys.modules[k] is v0` in the world in which the need for
+    the import was established) — nothing else is ever shadowed. -/
+theorem C06_shadow_only_registry (U : Univ W) (db : DB) (hdb : DbKeyed db) (cs : List Call) (st : State W)
+    (hauto : ∀ c ∈ cs, c.isAuto = true)
+    (i : Nat) (k : Name) (v : Obj)
+    (hafter : (getNs (run U db cs st).2.nss i).lookup k = some v)
+    (hbefore : (getNs st.nss i).lookup k = none)
+    (j : Nat) (hj : j < st.nss.length) (v0 : Obj) (hother : (getNs st.nss j).lookup k = some v0) :
+    ∃ w0, U.modOf w0 [k] = some v0 := by
+  obtain ⟨new, _, h⟩ := newLog_spec U db cs st
+  obtain ⟨r, hr, _, hname, _, _, _⟩ := h.origin i k v hafter hbefore
+  obtain ⟨s, ⟨c, hc, hca⟩, _, _, hfr⟩ := h.allowed r hr
+  have hch : ∃ d, Chosen U db d (st.nss.length - 1) s r.imp r.tgt r.loop := by
+    cases c with
+    | code m =>
+      cases m with
+      | none => exact hca.elim
+      | some ds => obtain ⟨d, _, hch⟩ := hca; exact ⟨d, hch⟩
+    | symbol d => exact ⟨d, hca⟩
+    | tryImp imp ns => have := hauto _ hc; simp [Call.isAuto] at this
+    | newCell => exact hca.elim
+  obtain ⟨d, hch⟩ := hch
+  obtain ⟨hne, _⟩ := chosen_head hdb hch
+  obtain ⟨_, ⟨w0, hs⟩, _⟩ := hch
+  have hjs : (getNs s.nss j).lookup k = some v0 := hfr.2 j k v0 hother
+  have hmem : getNs s.nss j ∈ s.nss := getNs_mem (by rw [← hfr.1]; exact hj)
+  cases hia : r.imp.importAs with
+  | nil => exact absurd hia hne
+  | cons hd rest =>
+    have hk : hd = k := by rw [← hname, name0, hia]; rfl
+    subst hk
+    rw [hia] at hs
+    exact ⟨w0, (sni_true_bound U hs hmem hjs).2⟩
+
+/-- **C06_only_needed_unbound_partial.**  Under the explicit hypothesis that no namespace of the
+    stack binds a name to the module registered under that very name, a name added by auto-import
+    was unbound in every namespace of the stack. -/
+theorem C06_only_needed_unbound_partial (U : Univ W) (db : DB) (hdb : DbKeyed db) (cs : List Call) (st : State W)
+    (hauto : ∀ c ∈ cs, c.isAuto = true)
+    (hreg : ∀ w0 j k v0, (getNs st.nss j).lookup k = some v0 → U.modOf w0 [k] ≠ some v0)
+    (i : Nat) (k : Name) (v : Obj)
+    (hafter : (getNs (run U db cs st).2.nss i).lookup k = some v)
+    (hbefore : (getNs st.nss i).lookup k = none) :
+    ∀ j, j < st.nss.length → (getNs st.nss j).lookup k = none := by
+  intro j hj
+  cases hl : (getNs st.nss j).lookup k with
+  | none => rfl
+  | some v0 =>
+    obtain ⟨w0, hw⟩ := C06_shadow_only_registry U db hdb cs st hauto i k v hafter hbefore j hj v0 hl
+    exact absurd hw (hreg w0 j k v0 hl)
+
+/-! ### C06_failure_untouched -/
+
+/-- **C06_failure_untouched.**  In every history, for every executed import statement `r`:
+    * if it raised, or yielded an object different from the existing binding of the name it
+      binds in the target (`r.Failed`), every namespace is exactly as it was (`r.after = r.before`);
+    * if it raised it is in the failed set at the end of the history, it was not in the failed set
+      at the beginning, and NO later record of the history executes the same import again
+      (whatever the cells);
+    * an import that is in the failed set at the beginning is not executed at all. -/
+theorem C06_failure_untouched (U : Univ W) (db : DB) (cs : List Call) (st : State W) :
+    (∀ r ∈ newLog U db cs st, r.Failed → r.after = r.before) ∧
+    (∀ r ∈ newLog U db cs st, r.res = none → r.imp ∈ (run U db cs st).2.failed) ∧
+    (∀ r ∈ newLog U db cs st, r.imp ∉ st.failed) ∧
+    (newLog U db cs st).Pairwise (fun r1 r2 => r1.res = none → r2.imp ≠ r1.imp) ∧
+    (∀ imp ∈ st.failed, imp ∈ (run U db cs st).2.failed) := by
+  obtain ⟨new, hn, h⟩ := newLog_spec U db cs st
+  rw [hn]
+  exact ⟨h.failed_same, h.raised_failed, h.not_failed, h.no_retry, (reach_run U db cs st).failed_mono⟩
+
+/-- a refused `_try_import` changes no namespace and (when the statement raised) records the failure -/
+theorem C06_tryImport_refused (U : Univ W) (imp : Import) (tgt : Nat) (loop : Bool) (st st' : State W)
+    (h : tryImport U imp tgt loop st = (false, st')) :
+    st'.nss = st.nss ∧ st'.attempted = st.attempted ∧ ((U.exec st.w imp).1 = none → imp ∈ st'.failed) := by
+  have hs := tryImport_spec U imp tgt loop st
+  simp only [h] at hs
+  obtain ⟨hatt, hs⟩ := hs
+  rcases hs with ⟨hin, heq⟩ | ⟨rc, hok, _, hnss, _, hiff, hf1, _⟩
+  · have : st' = st := by simpa using congrArg Prod.snd heq
+    subst this
+    exact ⟨rfl, rfl, fun _ => hin⟩
+  · have hF : rc.Failed := Classical.byContradiction (fun hnf => by
+      have := hiff.2 hnf
+      simp at this)
+    refine ⟨by rw [hnss, hok.failed_same hF, hok.before_eq], hatt, fun hnone => ?_⟩
+    rw [hf1 (by rw [hok.res_eq]; exact hnone)]
+    exact List.mem_cons_self
+
+/-! #### the per-cell attempt map -/
+
+/-- the attempt map only grows (newest first) -/
+def AttExt (a b : State W) : Prop := ∃ ext, b.attempted = ext ++ a.attempted
+
+theorem AttExt.refl (a : State W) : AttExt a a := ⟨[], rfl⟩
+
+theorem AttExt.trans {a b c : State W} (h1 : AttExt a b) (h2 : AttExt b c) : AttExt a c := by
+  obtain ⟨e1, h1⟩ := h1
+  obtain ⟨e2, h2⟩ := h2
+  exact ⟨e2 ++ e1, by rw [h2, h1, List.append_assoc]⟩
+
+theorem attExt_tryImport (U : Univ W) (imp : Import) (tgt : Nat) (loop : Bool) (st : State W) :
+    AttExt st (tryImport U imp tgt loop st).2 :=
+  ⟨[], (tryImport_spec U imp tgt loop st).1⟩
+
+theorem attExt_withAtt {a b : State W} (h : AttExt a b) (k : Dotted) (v : Bool) : AttExt a (b.withAtt k v) := by
+  obtain ⟨e, he⟩ := h
+  exact ⟨(k, v) :: e, by simp [he]⟩
+
+theorem attExt_ancestorLoop (U : Univ W) (tgt : Nat) (ps : List Dotted) (st : State W) :
+    AttExt st (ancestorLoop U tgt ps st).2 := by
+  induction ps generalizing st with
+  | nil => exact AttExt.refl _
+  | cons p ps ih =>
+    rw [ancestorLoop_cons]
+    have h1 : AttExt st (st.withW (U.exists_ st.w p).2) := ⟨[], rfl⟩
+    have h2 := h1.trans (attExt_tryImport U ⟨p, p⟩ tgt true (st.withW (U.exists_ st.w p).2))
+    split
+    · exact ih st
+    · split
+      · exact AttExt.refl _
+      · split
+        · exact attExt_withAtt h1 _ _
+        · split
+          · exact attExt_withAtt h2 _ _
+          · exact (attExt_withAtt h2 _ _).trans (ih _)
+
+theorem attExt_autoImportSymbol (U : Univ W) (db : DB) (viaStr : Bool) (d : Dotted) (st : State W) :
+    AttExt st (autoImportSymbol U db viaStr d st).2 := by
+  rw [autoImportSymbol_eq]
+  have h1 := attExt_tryImport U
+  split
+  · exact AttExt.refl _
+  · split
+    · exact AttExt.refl _
+    · split
+      · exact attExt_ancestorLoop U _ _ st
+      · exact AttExt.refl _
+      · split
+        · exact attExt_ancestorLoop U _ _ st
+        · split
+          · exact attExt_withAtt (h1 _ _ _ st) _ _
+          · split
+            · exact attExt_withAtt (h1 _ _ _ st) _ _
+            · exact (attExt_withAtt (h1 _ _ _ st) _ _).trans (attExt_ancestorLoop U _ _ _)
+      · exact attExt_withAtt (AttExt.refl st) _ _
+
+theorem attExt_foldSyms (U : Univ W) (db : DB) (ds : List Dotted) (acc : Bool) (st : State W) :
+    AttExt st (foldSyms U db ds acc st).2 := by
+  induction ds generalizing acc st with
+  | nil => exact AttExt.refl _
+  | cons d ds ih =>
+    have h1 := attExt_autoImportSymbol U db false d st
+    unfold foldSyms
+    split
+    · rename_i st' heq
+      rw [show st' = (autoImportSymbol U db false d st).2 by rw [heq]]; exact h1
+    · rename_i b st' heq
+      have hst' : st' = (autoImportSymbol U db false d st).2 := by rw [heq]
+      rw [hst']
+      exact h1.trans (ih _ _)
+
+def _root_.Pfb.AutoImp.Call.isNewCell : Call → Bool
+  | .newCell => true
+  | _ => false
+
+theorem attExt_run (U : Univ W) (db : DB) (cs : List Call) (st : State W)
+    (hcell : ∀ c ∈ cs, c.isNewCell = false) : AttExt st (run U db cs st).2 := by
+  induction cs generalizing st with
+  | nil => exact AttExt.refl _
+  | cons c cs ih =>
+    have h1 : AttExt st (step U db c st).2 := by
+      cases c with
+      | code m =>
+        cases m with
+        | none => exact AttExt.refl _
+        | some ds => exact attExt_foldSyms U db ds true st
+      | symbol d => exact attExt_autoImportSymbol U db true d st
+      | tryImp imp i => exact attExt_tryImport U imp i false st
+      | newCell => have := hcell _ List.mem_cons_self; simp [Call.isNewCell] at this
+    exact h1.trans (ih _ (fun c hc => hcell c (List.mem_cons_of_mem _ hc)))
+
+theorem lookup_isSome_append {α β : Type} [BEq α] (k : α) (a b : List (α × β)) (h : (b.lookup k).isSome) :
+    ((a ++ b).lookup k).isSome := by
+  rw [List.lookup_append]
+  cases a.lookup k <;> simp [h]
+
+/-- **C06_refused_not_retried.**  Within one cell (a history without `newCell`), a dotted name that
+    is recorded in the attempt map stays recorded, and every later `auto_import_symbol` for it
+    executes no import statement and changes nothing at all — namespaces, log, failed set, world
+    and attempt map are exactly as before. -/
+theorem C06_refused_not_retried (U : Univ W) (db : DB) (cs : List Call) (st : State W)
+    (hcell : ∀ c ∈ cs, c.isNewCell = false) (d : Dotted) (hd : (st.attempted.lookup d).isSome)
+    (viaStr : Bool) :
+    let st1 := (run U db cs st).2
+    (st1.attempted.lookup d).isSome ∧
+    (autoImportSymbol U db viaStr d st1).2 = st1 ∧
+    ((autoImportSymbol U db viaStr d st1).1 = .ok false ∨ symbolNeedsImport U st1.w st1.nss d = false) := by
+  intro st1
+  obtain ⟨ext, hext⟩ := attExt_run U db cs st hcell
+  have h1 : (st1.attempted.lookup d).isSome := by
+    show ((run U db cs st).2.attempted.lookup d).isSome
+    rw [hext]; exact lookup_isSome_append _ _ _ hd
+  refine ⟨h1, ?_, ?_⟩
+  · rw [autoImportSymbol_eq]
+    split
+    · rfl
+    · simp [h1]
+  · rw [autoImportSymbol_eq]
+    split
+    · rename_i h; right; exact h
+    · left; simp [h1]
+
+/-- **C06_refusal_recorded.**  When `auto_import_symbol d` reports failure for a name that needed
+    import and was not yet in the attempt map, the refusal is recorded in the map: under `d`
+    itself, or `False` under one of its prefixes (the ancestor loop). -/
+theorem C06_refusal_recorded_loop (U : Univ W) (tgt : Nat) (ps : List Dotted) (st st' : State W)
+    (h : ancestorLoop U tgt ps st = (false, st')) : ∃ p ∈ ps, st'.attempted.lookup p = some false := by
+  induction ps generalizing st with
+  | nil => simp [ancestorLoop] at h
+  | cons p ps ih =>
+    rw [ancestorLoop_cons] at h
+    split at h
+    · obtain ⟨q, hq, hl⟩ := ih st h
+      exact ⟨q, List.mem_cons_of_mem _ hq, hl⟩
+    · split at h
+      · rename_i hatt
+        have : st' = st := by simpa using (congrArg Prod.snd h).symm
+        subst this
+        exact ⟨p, List.mem_cons_self, hatt⟩
+      · split at h
+        · have : st' = _ := (congrArg Prod.snd h).symm
+          subst this
+          exact ⟨p, List.mem_cons_self, by simp [List.lookup_cons]⟩
+        · split at h
+          · have : st' = _ := (congrArg Prod.snd h).symm
+            subst this
+            exact ⟨p, List.mem_cons_self, by simp [List.lookup_cons]⟩
+          · obtain ⟨q, hq, hl⟩ := ih _ h
+            exact ⟨q, List.mem_cons_of_mem _ hq, hl⟩
+
+theorem C06_refusal_recorded (U : Univ W) (db : DB) (viaStr : Bool) (d : Dotted) (st st' : State W)
+    (h : autoImportSymbol U db viaStr d st = (.ok false, st')) :
+    (st'.attempted.lookup d).isSome ∨ ∃ p ∈ prefixes d, st'.attempted.lookup p = some false := by
+  have hloop : ∀ s : State W, (Outcome.ok (ancestorLoop U (st.nss.length - 1) (prefixes d) s).1,
+      (ancestorLoop U (st.nss.length - 1) (prefixes d) s).2) = (Outcome.ok false, st') →
+      ∃ p ∈ prefixes d, st'.attempted.lookup p = some false := by
+    intro s hs
+    have h1 := congrArg Prod.fst hs
+    have h2 := congrArg Prod.snd hs
+    simp at h1 h2
+    exact C06_refusal_recorded_loop U _ _ s st' (Prod.ext h1 h2)
+  rw [autoImportSymbol_eq] at h
+  split at h
+  · simp at h
+  · split at h
+    · rename_i hatt
+      have : st' = st := by simpa using (congrArg Prod.snd h).symm
+      subst this
+      exact Or.inl hatt
+    · split at h
+      · exact Or.inr (hloop st h)
+      · simp at h
+      · split at h
+        · exact Or.inr (hloop st h)
+        · split at h
+          · left
+            have : st' = _ := (congrArg Prod.snd h).symm
+            subst this
+            simp [List.lookup_cons]
+          · split at h
+            · simp at h
+            · exact Or.inr (hloop _ h)
+      · left
+        have : st' = _ := (congrArg Prod.snd h).symm
+        subst this
+        simp [List.lookup_cons]
+
+/-! ### C06_unparsable -/
+
+/-- **C06_unparsable.**  Code that does not parse (`find_missing_imports` raises SyntaxError): the
+    call reports failure and the whole state — every namespace, the failed set, the attempt map, the
+    world, the log (no import attempt) — is unchanged; so is everything a surrounding history did. -/
+theorem C06_unparsable (U : Univ W) (db : DB) (st : State W) :
+    step U db (.code none) st = (.ok false, st) := rfl
+
+theorem C06_unparsable_history (U : Univ W) (db : DB) (cs cs' : List Call) (st : State W) :
+    (run U db (cs ++ .code none :: cs') st).2 = (run U db cs' (run U db cs st).2).2 := by
+  induction cs generalizing st with
+  | nil => rfl
+  | cons c cs ih => simp only [List.cons_append, run]; exact ih _
+
+end Pfb.C06
+
+/-! ### Witness: D14 — the full-strength "unbound in every namespace" clause fails on the unchanged code -/
+
+namespace Pfb.C06.Witness
+open Pfb.AutoImp
+
+def xml : Name := ['x', 'm', 'l']
+def dom : Name := ['d', 'o', 'm']
+def minidom : Name := ['m', 'i', 'n', 'i', 'd', 'o', 'm']
+
+/-- a package `xml` with a subpackage `xml.dom` and a module `xml.dom.minidom` -/
+def spec : List ModSpec :=
+  [⟨[xml], true, .no, [], []⟩, ⟨[xml, dom], true, .no, [], []⟩, ⟨[xml, dom, minidom], false, .no, [['p']], []⟩]
+
+/-- `import xml` has been executed: object 1 is `sys.modules['xml']` -/
+def w0 : PyW := (PyW.importChain (PyW.empty spec) [xml]).2
+
+/-- `auto_import("xml.dom.minidom.p", [{'xml': xml}, {}])` -/
+def st0 : State PyW := { nss := [[(xml, 1)], []], failed := [], attempted := [], w := w0, log := [] }
+
+def st1 : State PyW := (autoImport pyUniv [] (some [[xml, dom, minidom, ['p']]]) st0).2
+
+/-- the call succeeds, `xml` was bound in the outer namespace only, and afterwards the inner
+    (target) namespace binds `xml` too — to the same object, the registry module -/
+theorem D14_witness :
+    (autoImport pyUniv [] (some [[xml, dom, minidom, ['p']]]) st0).1 = .ok true ∧
+    (getNs st0.nss 0).lookup xml = some 1 ∧ (getNs st0.nss 1).lookup xml = none ∧
+    (getNs st1.nss 1).lookup xml = some 1 ∧ pyUniv.modOf st1.w [xml] = some 1 := by decide
+
+/-- the negation of the full-strength clause, on the witness -/
+theorem C06_only_needed_unbound_everywhere_fails :
+    ¬ (∀ (db : DB) (missing : List Dotted) (st : State PyW) (i : Nat) (k : Name) (v : Obj),
+        (getNs (autoImport pyUniv db (some missing) st).2.nss i).lookup k = some v →
+        (getNs st.nss i).lookup k = none → ∀ j, (getNs st.nss j).lookup k = none) := by
+  intro h
+  have := h [] [[xml, dom, minidom, ['p']]] st0 1 xml 1 (by decide) (by decide) 0
+  revert this
+  decide
+
+/-- the hypothesis of `C06_only_needed_unbound_partial` is satisfiable by a stack with bindings:
+    here the outer namespace binds `xml` to an object that is NOT the registry module, the call adds
+    nothing and reports success (`xml.dom` needs no import under a non-module `xml`). -/
+example : (autoImport pyUniv [] (some [[xml, dom]]) { st0 with nss := [[(xml, 0)], []] }).2.nss = [[(xml, 0)], []] := by
+  decide
+
+end Pfb.C06.Witness
